@@ -207,6 +207,7 @@ class PartialOps:
 
             try:
                 ex = Explorer(self.folder, fn, oracle, on_call)
+                ex.split_conditionals = True
                 outs = ex.run({})
             except AnalysisError:
                 continue
